@@ -135,9 +135,9 @@ def translate(
     if translator == "sympy":
         import pymoca.backends.sympy.generator as sympy_gen
 
+        outfile = outdir.joinpath(model + ".py")
         try:
             result = sympy_gen.generate(library_ast, model, options)
-            outfile = outdir.joinpath(model + ".py")
             with outfile.open("w") as file:
                 file.write(result)
         except OSError:
@@ -146,7 +146,8 @@ def translate(
             else:
                 log.error('Error writing "%s"', outfile)
             return False
-        except KeyError:
+        # The generator can fail in several places (e.g. class not found)
+        except Exception:  # pylint: disable=broad-except
             log.exception("Problem translating %s to SymPy", model)
             return False
     else:
@@ -261,7 +262,8 @@ def main(argv: List[str]) -> int:
         if not errors and args.model:
             for model in args.model:
                 if args.target:
-                    translate(library_ast, model, "sympy", options, args.outdir)
+                    if not translate(library_ast, model, "sympy", options, args.outdir):
+                        errors += 1
                 elif args.model:
                     try:
                         _ = flatten_class(library_ast, model)
@@ -289,12 +291,12 @@ def main(argv: List[str]) -> int:
                         if model_dir:
                             # More than one found (ambiguous)
                             log.error("More than one Modelica file found for %s", model)
-                            errors += 1
                             model_dir = None
                             break
                         model_dir = path.parent
                 if not model_dir:
                     log.error("No unique Modelica file corresponding to model %s", model)
+                    errors += 1
                 else:
                     log.info("Generating model for %s ...", model)
                     try:
